@@ -136,16 +136,25 @@ theorem step_recv_publish_q1_outputs (s : Server) (hw : WF s) (conn i : Nat) (du
   rw [step_recv_publish_q1 s hw conn i dup retain id topic payload me hc h]
   simp only [q1Routed, List.append_assoc]
 
-/-- … and the tail is EMPTY when the publisher's own object cannot release: it holds no deferred message after the
-    routing call (e.g. it is not itself a subscriber of the topic and held none before) -/
+/-- the client object cannot release a deferred message: it holds none, or it has no send quota -/
+def Calm (c : Client) : Prop := (∀ m ∈ c.inflight, 0 ≤ m.expiry) ∨ c.sendQuota = 0
+
+theorem nextImmediate_calm (t : Server) (i : Nat) (h : Calm (getObj t i)) : nextImmediate t i = (t, []) := by
+  rcases h with h | h
+  · exact nextImmediate_none t i h
+  · unfold nextImmediate
+    simp only [h, Nat.lt_irrefl, gt_iff_lt, decide_false, Bool.and_false, Bool.false_eq_true, if_false]
+
+/-- … and the tail is EMPTY when the publisher's own object cannot release after the routing call (`Calm`: it holds no
+    deferred message, or has no send quota) -/
 theorem step_recv_publish_q1_outputs_quiet (s : Server) (hw : WF s) (conn i : Nat) (dup retain : Bool) (id : Nat)
     (topic payload : Str) (me : Nat) (hc : assocGet s.connOf conn = some i) (h : AcceptedQ1 s i id topic)
-    (hd : ∀ m ∈ (getObj (q1Routed s i dup retain id topic payload me).1 i).inflight, 0 ≤ m.expiry) :
+    (hd : Calm (getObj (q1Routed s i dup retain id topic payload me).1 i)) :
     step s (.recv conn (.publish 1 dup retain id topic payload me none)) =
       ((q1Routed s i dup retain id topic payload me).1,
        [Out.wrote (getObj s i).conn (.ack (getObj s i).ver 4 id 1)] ++ (q1Routed s i dup retain id topic payload me).2) := by
-  rw [step_recv_publish_q1 s hw conn i dup retain id topic payload me hc h, nextImmediate_none _ i hd]
-  simp only [nextImmediate_none _ i hd, List.append_nil]
+  rw [step_recv_publish_q1 s hw conn i dup retain id topic payload me hc h, nextImmediate_calm _ i hd]
+  simp only [nextImmediate_calm _ i hd, List.append_nil]
 
 /-- an acknowledgement is not a PUBLISH -/
 theorem pubsTo_ack (c n ver t id rc : Nat) : pubsTo c [Out.wrote n (.ack ver t id rc)] = [] := rfl
@@ -250,17 +259,81 @@ theorem routing_first_tx_qos (t : Server) (hx : IdxOK t.topics) (hw : WF t) (hcd
     rw [f3] at e5
     exact ⟨e1.trans f2, e2.trans f1, e3.trans f5, e4, by rw [e5]; exact hb.1, by rw [e5]; exact hb.2⟩
 
+/-! ### the routing call does not enable a release: `Calm` is kept -/
+
+theorem verdict_deferred_quota (s : Server) (i pid : Nat) (h : Q1.verdict s i = .deferred pid) :
+    (getObj s i).sendQuota = 0 := by
+  unfold Q1.verdict at h
+  split at h
+  · cases h
+  · split at h
+    · cases h
+    · split at h
+      · rename_i hq; exact hq.1
+      · cases h
+
+theorem entryObj_calm (s : Server) (i : Nat) (sub : Sub) (pk : Msg) (he : 0 ≤ pk.expiry) (h : Calm (getObj s i)) :
+    Calm (Q1.entryObj s i sub pk) := by
+  unfold Q1.entryObj
+  split
+  · split
+    · cases hv : Q1.verdict s i with
+      | limit => exact h
+      | exhausted => exact h
+      | deferred pid => exact Or.inr (verdict_deferred_quota s i pid hv)
+      | sent pid =>
+        rcases h with h | h
+        · refine Or.inl fun m hm => ?_
+          rcases List.mem_append.mp hm with hm | hm
+          · exact h m hm
+          · rw [List.mem_singleton.mp hm]; exact he
+        · exact Or.inr (by show (getObj s i).sendQuota - 1 = 0; omega)
+    · exact h
+  · exact h
+
+/-- `publishToSubscribers` (state level: `WF`, one connection per object, no outbound aliases, no matching shared
+    subscription; a message whose stamped expiry is not negative) keeps `Calm` of every object: a copy it files is sent
+    (not deferred), or deferred because the send quota is 0 — and then nothing can be released -/
+theorem routing_calm (t : Server) (hw : WF t) (hcd : ConnDistinct t) (hna : Q1.NoAliases t)
+    (pk : Msg) (hig : pk.ignore = false) (ht : pk.type = 3)
+    (hsh : (subscribers t.topics pk.topic).shared = []) (he : 0 ≤ (stamped t pk).expiry) (i : Nat)
+    (h : Calm (getObj t i)) : Calm (getObj (publishToSubscribers t pk).1 i) := by
+  obtain ⟨_, _, d3, d4, _⟩ := publishToSubscribers_writes_exact_qos t hw hcd hna pk hig ht hsh 0
+  by_cases hex : ∃ cs ∈ (subscribers t.topics pk.topic).subs, assocGet t.clients cs.1 = some i
+  · obtain ⟨cs, hcs, hg⟩ := hex
+    rw [(d3 cs.1 i cs.2 (Mochi.Topics.assocGet_mem _ _ _ hg) hcs).1]
+    exact entryObj_calm t i cs.2 _ he h
+  · rw [d4 i (fun cs hcs hg => hex ⟨cs, hcs, hg⟩)]
+    exact h
+
+theorem stamped_inbound_expiry (t s : Server) (i q : Nat) (dup retain : Bool) (id : Nat) (topic payload : Str) (me : Nat) :
+    0 ≤ (stamped t (inboundMsg s i q dup retain id topic payload me)).expiry := by
+  have h0 : 0 ≤ (inboundMsg s i q dup retain id topic payload me).expiry := by
+    show (0 : Int) ≤ if minimumNZ s.caps.maxMessageExpiry me > 0 then NOW + ↑(minimumNZ s.caps.maxMessageExpiry me) else 0
+    unfold NOW
+    split <;> omega
+  unfold stamped
+  split
+  · extract_lets e
+    split
+    · show (0 : Int) ≤ (inboundMsg s i q dup retain id topic payload me).created + ↑e
+      show (0 : Int) ≤ NOW + ↑e
+      unfold NOW; omega
+    · exact h0
+  · exact h0
+
 /-! ### the publishing op writes the first transmission: inbound PUBLISH of QoS 1 -/
 
 /-- what the theorems ask of the op `recv p (PUBLISH QoS 1, identifier id, topic t, no alias)` in state `s` (all on the
     state BEFORE the op), for the receiving connection `c`: `p` is the connection of client object `i`; the publish
-    passes the gates (`AcceptedQ1`); no shared subscription matches the topic; the receiver is not the publisher's own
-    connection (the publisher's release tail writes only there) -/
+    passes the gates (`AcceptedQ1`); no shared subscription matches the topic; and the op's release tail
+    (`nextImmediate` for the PUBLISHER) cannot write to `c`: the publisher cannot release (`Calm`: it holds no deferred
+    message, or has no send quota), or its connection is not `c` -/
 structure PubQ1 (s : Server) (p i c id : Nat) (t : Str) : Prop where
   reg : assocGet s.connOf p = some i
   gates : AcceptedQ1 s i id t
   noShared : (subscribers s.topics t).shared = []
-  other : (getObj s i).conn ≠ c
+  own : Calm (getObj s i) ∨ (getObj s i).conn ≠ c
 
 /-- the receiver in the state in which the accepted publish is routed (the retained store updated) -/
 theorem RecvImm.retained {s : Server} {pk : Msg} {c : Nat} {cid : Str} {k pid : Nat} (h : RecvImm s pk c cid k pid)
@@ -290,7 +363,18 @@ theorem publish_q1_first_tx (s : Server) (hs : SyncInv s) (hw : WF s) (hcm : Con
   have hsh' := (retainedState_shared s (inboundMsg s i 1 dup retain id t payload me) hs.idx t h.gates.nonempty hnh).mpr
     h.noShared
   obtain ⟨is, iw, ic⟩ := retainedState_inv (inboundMsg s i 1 dup retain id t payload me) hs hw hcm
-  rw [pubsTo_step_q1 s hw p i dup retain id t payload me h.reg h.gates c h.other]
+  have hstep : pubsTo c (step s (.recv p (.publish 1 dup retain id t payload me none))).2 =
+      pubsTo c (publishToSubscribers (retainedState s (inboundMsg s i 1 dup retain id t payload me))
+        (inboundMsg s i 1 dup retain id t payload me)).2 := by
+    rcases h.own with hcalm | hne
+    · have hc' : Calm (getObj (q1Routed s i dup retain id t payload me).1 i) :=
+        routing_calm _ iw ic.distinct (q1_noAliases_retainedState _ hna) _ rfl rfl hsh'
+          (stamped_inbound_expiry _ s i 1 dup retain id t payload me) i (by rw [getObj_retainedState]; exact hcalm)
+      rw [step_recv_publish_q1_outputs_quiet s hw p i dup retain id t payload me h.reg h.gates hc', pubsTo_append,
+        pubsTo_ack, List.nil_append]
+      rfl
+    · exact pubsTo_step_q1 s hw p i dup retain id t payload me h.reg h.gates c hne
+  rw [hstep]
   obtain ⟨m, e, f⟩ := routing_first_tx_qos _ is.idx iw ic.distinct (q1_noAliases_retainedState _ hna)
     (inboundMsg s i 1 dup retain id t payload me) rfl rfl h.gates.nonempty hnh hsh' (Nat.le_refl 1)
     (by rw [(retainedState_quiet s _).caps]; exact h.gates.maxQos) c cid k pid (hr.retained _)
